@@ -1891,7 +1891,8 @@ class _PPTableImpl:
         # 1. make first border line
         border_line = CHText.make([
             cp.border("".join("+" + "-"*col.width for col in columns) + '+')])
-        yield border_line
+        # (each yielded line is a new object: the consumer may modify it)
+        yield CHText(border_line)
 
         # 2. table header (name)
         if self.header:
@@ -1906,19 +1907,19 @@ class _PPTableImpl:
             yield self._make_table_line(title_line_data, sep)
 
         # 4. one more border_line
-        yield border_line
+        yield CHText(border_line)
 
         # 5. table contents - actual records and service lines
         for tl in table_lines:
             if isinstance(tl, self._ServiceLine):
-                yield tl.ch_text
+                yield CHText(tl.ch_text)
             else:
                 yield self._make_table_line(
                     repr_structure.make_record_ch_chunks_all(tl, cp),
                     sep)
 
         # 6. final border line
-        yield border_line
+        yield CHText(border_line)
 
         # 7. summary line
         if self.footer:
